@@ -214,6 +214,11 @@ def aggregate(prop, tier, seed, mod, records, problems, wall, extra_cov=None):
     if problems:
         for pr in problems[:3]:
             print(f"[{prop}] shard {pr['shard']} rc={pr['rc']}: {pr['stderr_tail'][-600:]}")
+    too_many = {k: events.get(k, 0) for k, frac in getattr(mod, "MAX_EVENT_FRACTION", {}).items()
+                if events.get(k, 0) > frac * len(records)}
+    if rc == 0 and too_many:
+        print(f"[{prop}] INCONCLUSIVE: not-judged outcomes above their allowed share: {too_many}")
+        rc = 2
     if rc == 0:
         judged = verdicts.get("held", 0) + verdicts.get("violated", 0)
         cut = sum(v for k, v in reasons.items() if k.startswith("inconclusive:watchdog")
